@@ -39,13 +39,21 @@ TRUSTED = [
     "documented table Validate_Spec.v (cells, defaults, order of the tests) written by hand from the "
     "property statement and the doc comments",
     "bounds 3.0/N and (N-1)/3.0: exact rationals in the model; binary64 agreement proved by evaluation "
-    "with Coq primitive floats for N <= 65536 (within 2^-53 relative, equal when representable); values "
-    "strictly between the exact bound and its rounding are exempt and never generated",
+    "with Coq primitive floats for N <= 65536 (within 2^-53 relative, equal when representable; the exact bound "
+    "lies strictly between next_down and next_up of the binary64 bound, and the binary64 check classifies the "
+    "three deciding doubles as the exact check classifies next_down, the exact bound, next_up).  The documentation "
+    "writes these bounds as double expressions: the double that IS the binary64 value of the bound is handed to the "
+    "exact model as the exact bound (checks/c14.py exactify), every other double as it is; the expected verdict of "
+    "the float_bound requests is read from Validate_Float_Points.float_table, evaluated by coqc on every run, and "
+    "Python's own binary64 arithmetic is required to agree with that table",
+    "non-finite values: NaN is handed to the exact model as -1 (every documented scalar cell has a lower bound >= 0, so "
+    "-1 fails exactly the checks NaN fails), +-infinity as +-2^2000",
     "int(N * landmark_ratio): exact in the model; generated ratios (multiples of 1/64) make the double product "
     "exact; binary64 agreement evaluated for N <= 256 and every ratio k/256",
     "extraction (ExtrOcamlBasic only) + OCaml 4.13.1 + coq/extract/c14_driver.ml (parsing/printing)",
     "harness/c14.cpp: fork per request, counting callbacks that end the child at the first kernel/"
-    "distance call, logger capturing the debug echo; quick tier builds it -O0 without sanitizers",
+    "distance call, logger capturing the debug echo; quick tier builds it -O0 without sanitizers; in the "
+    "parallel-region mode (omp_region) the counters and the echo are those of thread 0 of the application's region",
     "Coq primitive floats / Uint63 (stdlib primitives listed by Print Assumptions for "
     "computed_bounds_binary64 and landmark_count_binary64 only)",
 ]
@@ -515,6 +523,23 @@ def check_pairs(ctx, cases, impl):
             return
 
 
+def omp_region_cases():
+    """wave 3: the same request made from INSIDE an application's own `#pragma omp parallel num_threads(3)` region by
+    every thread at once (nested parallelism off / on; a second pass of the harness runs them with OMP_THREAD_LIMIT=2
+    below OMP_NUM_THREADS=4): the documented exception must come out in every thread, an accepted request must reach
+    its first callback; the expectation is the serial one (model and specification know nothing about threads)"""
+    cases = []
+    for m in range(N_METHODS):
+        b = baseline(m, 8)
+        variants = [b, b + [P(KW_TD, "I", 0)], b + [P(KW_TD, "I", 2), P(KW_TD, "I", 2)], b + [P(KW_K, "S", hexf(4.0))],
+                    b + [P(18, "X", 2)], b + [P(18, "X", 1)], [k for k in b if k[0] != KW_METHOD]]
+        for i, kws in enumerate(variants):
+            cases.append({"N": 8, "mask": 7, "kws": kws, "gen": "omp_region", "omp": 1 + (m + i) % 2})
+        cases.append({"N": 8, "mask": 0, "kws": b, "gen": "omp_region", "omp": 1 + m % 2})
+        cases.append({"N": 0, "mask": 7, "kws": b, "gen": "omp_region", "omp": 1})
+    return cases
+
+
 def random_value(rng, kw, N, valid=True):
     ty = KW_TYPES[kw]
     if ty == "I":
@@ -664,7 +689,10 @@ def impl_line(case):
     if case.get("kind") == "pred":
         return " ".join(["V", str(case["pred"]), case["ty"], str(len(case["args"]))] +
                         [str(a) for a in case["args"]] + [str(case["value"])])
-    parts = ["R", str(case["N"]), str(case["mask"]), str(stopf_of(case)), str(len(case["kws"]))]
+    # bit0 stop at the first features vector() call; bits 1-2 (wave 3): call from inside an application's own
+    # `#pragma omp parallel` region (2), with nested parallelism on (6)
+    flags = stopf_of(case) | {0: 0, 1: 2, 2: 6}[case.get("omp", 0)]
+    parts = ["R", str(case["N"]), str(case["mask"]), str(flags), str(len(case["kws"]))]
     for kw, ty, v in case["kws"]:
         parts += [str(kw), ty, str(v)]
     return " ".join(parts)
@@ -706,14 +734,14 @@ def build_harness(ctx, sanitize):
     return join
 
 
-def run_impl(ctx, exes, cases):
+def run_impl(ctx, exes, cases, env=None):
     """exes = (binary for masks 0-3, binary for masks 4-7); the two run concurrently"""
     import threading
     idx = [[i for i, c in enumerate(cases) if not c["mask"] & 4], [i for i, c in enumerate(cases) if c["mask"] & 4]]
     parts = [None, None]
 
     def one(h):
-        parts[h] = run_impl_one(ctx, exes[h], [cases[i] for i in idx[h]])
+        parts[h] = run_impl_one(ctx, exes[h], [cases[i] for i in idx[h]], env)
     ths = [threading.Thread(target=one, args=(h,)) for h in (0, 1)]
     for t in ths:
         t.start()
@@ -730,12 +758,12 @@ def run_impl(ctx, exes, cases):
     return out
 
 
-def run_impl_one(ctx, exe, cases):
+def run_impl_one(ctx, exe, cases, env=None):
     out = [None] * len(cases)
     CH = 400
     for s in range(0, len(cases), CH):
         chunk = cases[s:s + CH]
-        r = ctx.run(exe, "".join(impl_line(c) + "\n" for c in chunk), timeout=60 + len(chunk))
+        r = ctx.run(exe, "".join(impl_line(c) + "\n" for c in chunk), timeout=60 + len(chunk), env=env)
         for line in r.out.splitlines():
             w = line.split(" | ", 1)
             f = w[0].split()
@@ -867,7 +895,7 @@ def judge(ctx, case, io, mo, stats):
         if io["outcome"].startswith(("crash", "timeout")):
             stats["post_validation_crash"] = stats.get("post_validation_crash", 0) + 1
     # explicit values win, defaults fill: the debug echo after merge(defaults)
-    if io["echo"] and spec not in ("multiple_parameter",):
+    if io["echo"] and spec not in ("multiple_parameter",) and not (case.get("omp") and ci.startswith("stop:")):
         skip = {k[0] for k in case["kws"] if k[1] == "S" and nonfinite(k[2])}     # echoed as nan / inf
         for kw, v in mo["merged"].items():
             if kw >= len(KW_NAMES) or kw in skip:
@@ -906,8 +934,8 @@ def model_disagrees_with_spec(mo):
     return threw != mo["spec"] or evaluated
 
 
-def evaluate(ctx, exe, mexe, cases, stats):
-    impl = run_impl(ctx, exe, cases)
+def evaluate(ctx, exe, mexe, cases, stats, env=None):
+    impl = run_impl(ctx, exe, cases, env)
     model = run_model(ctx, mexe, cases)
     check_pairs(ctx, cases, impl)
     bad = 0
@@ -1232,6 +1260,7 @@ def build_cases(ctx, doc, gen, rng, quick, ftab=None):
     if ftab:
         cases += float_bound_cases(ftab, range(3, (300 if quick else 4096) + 1))
     cases += explicit_default_cases(doc)
+    cases += omp_region_cases()
     cases += callback_cases()
     cases += wrong_type_cases(rng, quick)
     cases += duplicate_cases(rng, quick)
@@ -1287,6 +1316,9 @@ def run(ctx):
     cases += build_cases(ctx, doc, gen, rng, ctx.quick, ftab)
     n = evaluate(ctx, exe, mexe, cases, stats)
     mark("cases run")
+    limited = [dict(c, gen="omp_region_thread_limit") for c in cases if c.get("omp")]
+    n += evaluate(ctx, exe, mexe, limited, stats, env={"OMP_NUM_THREADS": "4", "OMP_THREAD_LIMIT": "2"})
+    cases += limited
     # wave 2: the container and the predicate objects driven directly, against the generated bodies
     probes = probe_cases(rng, ctx.quick) + pred_probe_cases()
     np_, derived = run_probes(ctx, exe[0], mexe, probes, stats)
@@ -1323,7 +1355,8 @@ def run(ctx):
     cellset = set()
     for c in cases:
         if c["kws"] and c["N"] > 0:
-            distinct.add(hashlib.sha1(json.dumps([c["N"], c["mask"], c["kws"]]).encode()).hexdigest())
+            distinct.add(hashlib.sha1(json.dumps([c["N"], c["mask"], c["kws"], c.get("omp", 0),
+                                                  c["gen"] == "omp_region_thread_limit"]).encode()).hexdigest())
         if "cell" in c:
             cellset.add(tuple(c["cell"]))
     for c in probes:
@@ -1345,7 +1378,15 @@ def run(ctx):
              "set for merge / checkTypes / operator[], compared with the documented container semantics and with "
              "the interpreted GENERATED bodies of parameter.hpp; predicate probes = the four predicate objects "
              "called directly for both instantiation types on extreme magnitudes, compared with the documented "
-             "inequality and the GENERATED body. Every probe counts as one distinct evaluation.",
+             "inequality and the GENERATED body. Every probe counts as one distinct evaluation. Wave 3: float_bound = for "
+             "EVERY N in 3..300 (quick) / 3..4096 (thorough) landmark_ratio at next_down(3.0/N), 3.0/N, next_up(3.0/N) for "
+             "both landmark methods and perplexity at the three doubles around (N-1)/3.0, expected verdict from the table "
+             "Coq evaluates with primitive floats on this run; the same three doubles for the small N of the cell stream; "
+             "cell_nonfinite = every real-valued cell at NaN, +inf, -inf; explicit_default = every keyword written out "
+             "with its documented default (one at a time and all at once, N = 8 and 100) must give the outcome of the "
+             "request that leaves it unset; omp_region = 9 request kinds per method made from inside an application's "
+             "own `#pragma omp parallel num_threads(3)` region by every thread at once (nested parallelism off / on), "
+             "and once more with OMP_THREAD_LIMIT=2 below OMP_NUM_THREADS=4: every thread must get the serial outcome.",
         samples=[{k: c[k] for k in ("N", "mask", "kws", "gen")} for c in cases[:3] + cases[len(cases) // 2:len(cases) // 2 + 3]],
         histogram={"generators": hist, "implementation_outcomes": stats["outcomes"],
                    "cells_covered(method,keyword,side)": len(cellset),
@@ -1357,9 +1398,14 @@ def run(ctx):
                                            stats.get("search_model_guided_suspects", 0)],
                    "translator_ok": translated},
         trusted_base=TRUSTED,
-        assumptions=["doubles handed to the model are the exact binary64 values (hex floats)",
-                     "scalar test values avoid the open interval between an exact bound and its binary64 rounding",
-                     "features.dimension() = %d > every N used" % FEATURE_DIM,
+        assumptions=["doubles handed to the model are the exact binary64 values (hex floats), except the binary64 value of a "
+                     "computed bound, which is handed over as the exact bound (the documentation writes the bound as that "
+                     "double expression); no other double lies between an exact bound and its rounding",
+                     "features.dimension() = %d: above N in the cell / callback / random streams, below N in the "
+                     "float_bound sweep and the N = 100 requests (both shapes occur)" % FEATURE_DIM,
+                     "input classes of the wave-3 brief that cannot matter here: data offset / ties / duplicates / weak "
+                     "coupling / huge data magnitudes (the property ends before the first callback evaluation: the data "
+                     "is never read; huge PARAMETER magnitudes are in cell_extreme / cell_nonfinite)",
                      "Arpack eigen method is not compiled in this build (not exercised)",
                      "a branch on the data that is reached only after a kernel/distance evaluation on every path, and "
                      "that neither checks nor throws, is outside the property and not modelled (the translator lists "
@@ -1376,6 +1422,8 @@ def replay(ctx, case):
     c = {"N": case["N"], "mask": case["mask"], "kws": case["kws"], "gen": "replay"}
     if "f64" in case:
         c["f64"] = case["f64"]
+    if case.get("omp"):
+        c["omp"] = case["omp"]
     stats = {"outcomes": {}}
     io = run_impl(ctx, exe, [c])[0]
     mo = run_model(ctx, mexe, [c])[0]
